@@ -110,3 +110,36 @@ Proof.
   - repeat constructor; intros b gv h ans Hn; cbn [fst snd] in *;
       repeat (destruct b as [|b]; cbn in Hn; try discriminate; try congruence).
 Qed.
+
+(* ---- composition with C14: the assignment the code computes is a legal [p_owner] ---------------------------- *)
+From Shampoo Require Assign AssignProofs.
+
+Definition lpt_owner (sizes : list Z) (gs : nat) (b : nat) : nat := snd (nth b (Assign.assign sizes gs) (0%Z, 0%nat)).
+
+Lemma lpt_owner_lt : forall sizes gs b, (1 <= gs)%nat -> Forall (fun s => (0 <= s)%Z) sizes ->
+  b < length sizes -> lpt_owner sizes gs b < gs.
+Proof.
+  intros sizes gs b Hgs Hs Hb. unfold lpt_owner.
+  destruct (AssignProofs.assign_total_deterministic sizes gs Hgs Hs) as [[Hlen [_ Hall]] _].
+  rewrite Forall_forall in Hall. apply (Hall (nth b (Assign.assign sizes gs) (0%Z, 0%nat))).
+  apply nth_In. rewrite Hlen. exact Hb.
+Qed.
+
+Theorem ddp_with_lpt_assignment_follows_update_rule :
+  forall F (Op : ops F) (c : cfg (F:=F)) (dims : nat -> list nat) (groups gs : nat) (sizes : list Z) nbytes
+         (hs : list (hints (F:=F) * entry (ograd (F:=F)))) v0 st0 b0,
+    (1 <= gs)%nat -> Forall (fun s => (0 <= s)%Z) sizes ->
+    Forall (fun p => uniform (fst p) (snd p)) hs ->
+    let P := optP Op c dims (groups * gs) gs (length sizes) (lpt_owner sizes gs) nbytes in
+    exists cl, ddp_run P (map snd hs) (init_cluster P v0 st0 b0) = Some cl /\
+      forall r, r < groups * gs ->
+        tab (length sizes) (fun b => nth b (vals (cget cl r)) [])
+        = map (b_w (F:=F)) (snd (model_run Op c (map (fun p => (fst p, abs_ins (length sizes) (snd p))) hs) 0%Z
+                                           (abs_blocks dims (length sizes) (Dist.mkS v0 st0 0%Z)))).
+Proof.
+  intros F Op c dims groups gs sizes nbytes hs v0 st0 b0 Hgs Hs Hu P.
+  apply ddp_cluster_follows_update_rule; [|exact Hu].
+  unfold wf_config; cbn [p_gs p_world p_nb p_owner optP]. split; [lia|]. split.
+  - rewrite Nat.div_mul by lia. reflexivity.
+  - intros b Hb. apply lpt_owner_lt; assumption.
+Qed.
